@@ -68,7 +68,8 @@ def section3(P):
             out.append("Known findings reported by this check: " + ", ".join(sorted({k["id"] + " [" + k["obligation"] + "]" for k in cov["known_findings"]})) + " (§4).\n")
         if cov.get("witness"):
             w = cov["witness"]
-            out.append("Witness mutants (last thorough run): %d tried, %d detected, %d insensitive.\n" % (w["mutants"], w["mutants_detected"], len(w.get("insensitive") or [])))
+            out.append("Witness mutants (last thorough run): %d derived, %d do not type-check, %d detected (%d only as a lost anchor), %d not noticed by any obligation of this property (listed in the evidence).\n" % (
+                w["mutants"], w.get("mutants_not_typechecking", 0), w["mutants_detected"], w.get("detected_only_as_undecided", 0), w.get("mutants_not_detected", 0)))
     return "\n".join(out), tot_obl, tot_ev
 
 
